@@ -6579,6 +6579,34 @@ def grd34_batch_loop_bounded_by_count(P, R, L, rule="GRD-34"):
     nexts = [c for c in b.calls() if not b.is_cleanup(c.bb) and (c.name or "").endswith("::next") and c.args and over_range(c.args[0])]
     ok = bool(rd) and bool(ranges) and bool(nexts) and all(in_cycle(b, c.bb) for c in rd) and \
         all(b.must_pass(c.bb, through_nodes=[x.bb for x in nexts]) for c in rd)
+    if not ok and rd and all(in_cycle(b, c.bb) for c in rd):
+        # the counting form: `while decoded < count { read_element; decoded += 1 }` - read_element lies behind the true edge of
+        # `counter < count` (count = the header's varint), and the counter starts at 0 and is only ever incremented by one
+        is_count = lambda os_: any(o.kind == "call" and "read_varint" in (o.name or "") for o in os_)
+        stay, counters = [], set()
+        for c in comparisons(b):
+            for (cop, kop, op_) in ((c.lhs, c.rhs, c.op), (c.rhs, c.lhs, {"lt": "gt", "gt": "lt", "le": "ge", "ge": "le"}.get(c.op, c.op))):
+                if is_count(origins(b, kop)) and not is_count(origins(b, cop)) and cop.get("k") in ("copy", "move"):
+                    if op_ == "lt":
+                        stay += [(c.bb, t) for t in c.true_t]
+                        counters |= roots(b, cop)
+                    elif op_ == "ge":
+                        stay += [(c.bb, t) for t in c.false_t]
+                        counters |= roots(b, cop)
+        good_counter = False
+        for l in counters:
+            defs = [d for d in b.defs().get(l, []) if not b.is_cleanup(d[1])]
+            inits = [d for d in defs if d[0] == "stmt" and d[3]["rv"]["k"] == "use" and d[3]["rv"]["ops"][0].get("k") == "const"]
+            steps = [d for d in defs if d not in inits]
+            inc_ok = bool(steps) and all(
+                d[0] == "stmt" and any(o.kind == "binop" and o.name.startswith("Add") and o.extra is not None and
+                                       any(x.get("k") == "const" and str(x.get("val")) == "1" for x in o.extra[1]["rv"]["ops"]) and
+                                       any(l in roots(b, x) for x in o.extra[1]["rv"]["ops"] if x.get("k") != "const")
+                                       for o in (origins(b, d[3]["rv"]["ops"][0]) if d[3]["rv"].get("ops") else []))
+                for d in steps)
+            if inits and all(str(d[3]["rv"]["ops"][0].get("val")) == "0" for d in inits) and inc_ok:
+                good_counter = True
+        ok = bool(stay) and good_counter and all(b.must_pass(c.bb, through_edges=stay) for c in rd)
     R.check(rule, fn + "|element-loop-driven-by-the-stored-count", ok, where(b),
             "read_element runs inside the loop over 0..count (count = the varint of the batch header)",
             "read_element sites %d, ranges ending in the count %d, next() on a range %d" % (len(rd), len(ranges), len(nexts)))
